@@ -282,7 +282,12 @@ def compare_replicas(plan, per_replica):
                                 continue
                             plain_is_rec = bool(plan["replicas"][ridx].get("plain"))
                             alone, after = (a, b) if plain_is_rec else (b, a)
-                            props, check, csite = conc_attribution(sub, alone, after, "cancel.")
+                            specs = op.get("interrupt") or []
+                            if isinstance(specs, dict):
+                                specs = [specs]
+                            prefix = "allocfail." if specs and all(
+                                sp.get("exc") == "MemoryError" for sp in specs) else "cancel."
+                            props, check, csite = conc_attribution(sub, alone, after, prefix)
                             for prop in props:
                                 fails.append({
                                     "prop": prop, "check": check, "site": csite,
